@@ -108,12 +108,23 @@ fn family(fam: &str, c: usize) -> (String, usize, usize, usize) {
             s.push_str(";\n");
             (s, usize::MAX, usize::MAX, usize::MAX)
         }
+        "ecoprods" => {
+            // Eco with one implicit token: the generator adds three rules with four productions (^,
+            // ^~, ~ with its empty alternative) - c productions in total with c - 5 alternatives of an
+            // unreachable rule X (few LR states, so only the production count is at the boundary)
+            s.push_str("%implicit_tokens ws\n%start S\n%expect-unused X\n%%\nS: 'a';\nX: 'a'");
+            for _ in 1..c.saturating_sub(5) {
+                s.push_str(" | 'a'");
+            }
+            s.push_str(";\n");
+            (s, usize::MAX, usize::MAX, usize::MAX)
+        }
         _ => unreachable!(),
     }
 }
 
 fn family_kind(fam: &str) -> cfgrammar::yacc::YaccKind {
-    if fam == "ecosymbols" { cfgrammar::yacc::YaccKind::Eco } else { YK }
+    if fam == "ecosymbols" || fam == "ecoprods" { cfgrammar::yacc::YaccKind::Eco } else { YK }
 }
 
 macro_rules! build_width {
@@ -234,7 +245,7 @@ pub fn worker(_args: &[String]) {
 }
 
 pub fn run(ctx: Ctx) -> i32 {
-    let fams = ["rules", "tokens", "prods", "symbols", "ecosymbols", "states", "lexrules", "lexskip"];
+    let fams = ["rules", "tokens", "prods", "symbols", "ecosymbols", "ecoprods", "states", "lexrules", "lexskip"];
     let widths = ["u8", "u16", "u32"];
     if let Some(case) = load_replay(&ctx) {
         // the quick exploration takes about a second: replay = run it again and keep the
